@@ -201,6 +201,14 @@ func RunC16(st *simcore.Stream, tier_, leg string, logOn bool, res *simcore.Resu
 			res.Probe("address-round-trip-ok")
 		}
 	}
+	checkObjects := func() {
+		for _, ep := range w.Eps {
+			for _, pr := range ep.ObjectProblems() {
+				res.Checks++
+				res.Violate(w.step(), "address-not-equal-after-round-trip", "stack %s, node %d: %s", spec, ep.Node(), pr).With("stack", spec)
+			}
+		}
+	}
 	w.AddrHook = func(ep Endpoint, m Msg) {
 		checkAddr(ep, m.Src, "source address")
 		checkAddr(ep, m.Dst, "destination address")
@@ -225,6 +233,7 @@ func RunC16(st *simcore.Stream, tier_, leg string, logOn bool, res *simcore.Resu
 				}
 			}
 		}
+		checkObjects()
 		rctx, rcancel := context.WithCancel(context.Background())
 		for _, ep := range w.Eps {
 			zsimrt.Go("recv", func() { w.ReceiverLoop(rctx, ep, 0, 0) })
@@ -258,6 +267,7 @@ func RunC16(st *simcore.Stream, tier_, leg string, logOn bool, res *simcore.Resu
 		for _, ep := range w.Eps {
 			ep.Close()
 		}
+		checkObjects()
 		w.Finished = true
 	})
 	fillStats(res, w)
